@@ -18,9 +18,9 @@ TECHNIQUE = "runtime monitoring: run_contingency's returned dict and result tabl
 CASES = {"quick": 400, "thorough": 12000}
 BUDGET = {"quick": 60, "thorough": 1500}
 FLOORS = {"quick": {"nontrivial": 150, "max_skip_frac": 0.3,
-                    "tags": {"own_outage_first": 60, "unsolved_case": 15, "islanding_case": 40, "overloading_case": 80,
+                    "tags": {"own_outage_first": 80, "unsolved_case": 10, "islanding_case": 40, "overloading_case": 80,
                              "trafo_cases": 60, "trafo3w_cases": 20, "oos_element_in_case_list": 20, "nminus1_limit_column": 30},
-                    "extras": {"n1_cases": 2000, "cause_checked": 4000, "overload_flags_checked": 1500}},
+                    "extras": {"n1_cases": 1200, "cause_checked": 3000, "overload_flags_checked": 1500}},
           "thorough": {"nontrivial": 5000, "max_skip_frac": 0.3,
                        "tags": {"own_outage_first": 2000, "unsolved_case": 300, "trafo3w_cases": 500},
                        "extras": {"n1_cases": 60000, "cause_checked": 100000}}}
